@@ -92,11 +92,26 @@ int Sched::pickNext(bool selfEnabled, bool yielding) {
     if (logging) trace.push_back(std::string("  [sched] timeout fires for ") + best->name);
     return best->id;
   }
-  if (en.size() == 1) return en[0];
-  uint8_t kinds[16];
+  // a timed wait may also expire while other threads can still run (they were slow in real time): offered as an
+  // alternative with its own budget, only at yield points of a running thread
+  std::vector<ThreadCtl*> tw;
+  if (timeoutChoices && selfEnabled) for (auto t : threads) if (t->st == ThreadCtl::WAIT_COND_TIMED && !t->signalled) tw.push_back(t);
+  if (en.size() == 1 && tw.empty()) return en[0];
+  uint8_t kinds[24];
   int n = (int)en.size() > 16 ? 16 : (int)en.size();
   for (int i = 0; i < n; i++) kinds[i] = (i > 0 && selfEnabled) ? K_PREEMPT : 0;
-  int c = ex->choose(n, kinds);
+  int m = n;
+  for (size_t i = 0; i < tw.size() && m < 24; i++) kinds[m++] = K_TIMEOUT;
+  int c = ex->choose(m, kinds);
+  if (c >= n) {
+    ThreadCtl* t = tw[c - n];
+    if (t->deadlineUs > vp::vclockGet()) vp::vclockSet(t->deadlineUs);
+    t->timedOut = true;
+    t->signalled = true;
+    timeoutsFired++;
+    if (logging) trace.push_back(std::string("  [sched] timeout fires early for ") + t->name);
+    return t->id;
+  }
   return en[c];
 }
 
